@@ -1057,8 +1057,12 @@ class ConfigInformation:
         if run_mode == RunMode.NORMAL:
             other = experiment.CURRENT.submit(self.job)
             if other:
-                # Just returns the other task
-                return other.config.__xpm__._taskoutput
+                # Our job is the one that was submitted first: a task that
+                # takes this configuration as a parameter must depend on it
+                self.job = other
+                self.task = other.config
+                self._taskoutput = other.config.__xpm__._taskoutput
+                return self._taskoutput
         else:
             # Show a warning
             if run_mode == RunMode.GENERATE_ONLY:
